@@ -208,15 +208,29 @@ def check_driver(model, rep, rule):
     init = _guarded_values(fi, pre, wl_name, mode_atom)
     facts['initial'] = [(str(f), core.norm(v)) for f, v in init]
 
-    def under(vals, assume, want):
-      hit = [core.norm(v) for f, v in vals if formula.implies(assume, f)[0]]
+    def coll(v):
+      """a worklist initialiser, whatever sequence type holds it: ONE(x) for a
+      single element, the source expression for a copy of a collection"""
+      while isinstance(v, ast.Call) and core.dotted(v.func) in (
+          'list', 'collections.deque', 'deque', 'tuple') and len(v.args) == 1 \
+          and not v.keywords:
+        v = v.args[0]
+      if isinstance(v, (ast.List, ast.Tuple)) and len(v.elts) == 1:
+        if isinstance(v.elts[0], ast.Starred):
+          return core.norm(v.elts[0].value)
+        return 'ONE(%s)' % core.norm(v.elts[0])
+      return core.norm(v)
+
+    def under(vals, assume, want, norm=core.norm):
+      hit = [norm(v) for f, v in vals if formula.implies(assume, f)[0]]
       return bool(hit) and all(h in want for h in hit)
     FWD = atom('FWD')
-    ok = ok and under(init, FWD, ('[self.graph.entry]', 'list((self.graph.entry,))')) \
-        and under(init, ~FWD, ('list(self.graph.exit)', '[*self.graph.exit]'))
+    ok = ok and under(init, FWD, ('ONE(self.graph.entry)',), coll) \
+        and under(init, ~FWD, ('self.graph.exit',), coll)
     # dequeued node, closed set, revisit flag
     pops = [n for n in ast.walk(lp) if isinstance(n, ast.Assign) and isinstance(
-        n.value, ast.Call) and core.norm(n.value.func) == wl_name + '.pop' and
+        n.value, ast.Call) and core.norm(n.value.func) in (
+            wl_name + '.pop', wl_name + '.popleft') and
             isinstance(n.targets[0], ast.Name)]
     rv = [n.targets[0].id for n in ast.walk(lp) if isinstance(n, ast.Assign) and
           isinstance(n.value, ast.Call) and core.norm(n.value.func) == 'self.visit_node'
